@@ -862,7 +862,7 @@ fn main() {
     }
 
     // (3) enumerated 3D symbols with spherical tiles and vertex figures that have a pseudo-toroidal cover
-    let nmax = if thorough { 3 } else { 2 };
+    let nmax = if thorough { 4 } else { 3 };
     let vals = [1usize, 2, 3, 4, 6];
     let mut cand = 0u64;
     for n in 1..=nmax {
@@ -872,7 +872,12 @@ fn main() {
                 all_vs(&set, &vals)
             } else {
                 let mut rng = ctx.rng(3000 + cand);
-                let k = if thorough { 4000 } else { 600 };
+                let k = match (thorough, n) {
+                    (false, 2) => 1500,
+                    (false, _) => 300,
+                    (true, 3) => 6000,
+                    (true, _) => 1500,
+                };
                 (0..k).map(|_| random_vs(&set, &mut rng, &vals)).collect()
             };
             for t in syms {
